@@ -454,7 +454,7 @@ def g13(ctx):
 
 
 def run(ctx):
-    return [helper_shapes(ctx), g9(ctx)] + g10_g11(ctx) + [g12(ctx), g13(ctx), g14(ctx)]
+    return [helper_shapes(ctx), g9(ctx)] + g10_g11(ctx) + [g12(ctx), g13(ctx), g14(ctx), g15(ctx)]
 
 
 # ------------------------------------------------------------------------- G14
@@ -550,4 +550,49 @@ def g14(ctx):
                    'token would be swallowed as trivia instead of making the source be rejected' %
                    (ws_role, (['%r' % c for c in extra] + unknown)))
     r.floor('raw_lexers', n, 45)
+    return r
+
+
+# ------------------------------------------------------------------------- G15
+def g15(ctx):
+    """In token-level code a boundary test written `peek(none_of(S))` requires a character to be present, so the token
+    fails when it is the last thing in the input; it must stand beside an end-of-input alternative (all_consuming / eof)
+    or be written `peek(not(one_of(S)))`.  (keyword() and directive_word() are the instances on the tree.)"""
+    g = ctx.grammar
+    r = RuleResult('G15', 'token-level negative look-ahead also succeeds at end of input')
+
+    def presence_lookahead(q):
+        """q = peek(<consuming single-char class test>) : fails at end of input"""
+        return q.get('op') == 'peek' and q['p'].get('op') == 'prim' and q['p']['name'] in ('none_of', 'is_not', 'anychar', 'take')
+
+    def scan(ir, f, eof_sibling):
+        op = ir.get('op')
+        if op == 'alt':
+            has_eof = any(a.get('op') == 'all_consuming' or
+                          (a.get('op') in ('terminated', 'seq') and any(x.get('op') == 'prim' and x['name'] == 'eof' for x in grammar.iter_ir(a)))
+                          for a in ir['arms'])
+            for a in ir['arms']:
+                scan(a, f, has_eof)
+            return
+        if op == 'terminated' and presence_lookahead(ir['q']):
+            r.inst('%s:%s' % (f.name, grammar.show(ir)[:50]), {'fn': f.name, 'token_then': grammar.show(ir['q'])[:40], 'eof_alternative': eof_sibling})
+            if not eof_sibling:
+                r.fail('%s:%s:lookahead-fails-at-eof:%s' % (g.crate, f.name, grammar.show(ir['p'])[:24]), '%s/%s:%s' % (g.crate, f.file, ir.get('l')),
+                       '%s: %s followed by %s needs a next character: when the token is the last thing in the text (end of file, end of a '
+                       'macro body) it fails although nothing forbidden follows; pair it with an end-of-input alternative or use '
+                       'peek(not(one_of(..)))' % (f.name, grammar.show(ir['p'])[:40], grammar.show(ir['q'])[:40]))
+        for k in ('p', 'q', 'a', 'b', 'sep', 'item', 'ir'):
+            if k in ir and isinstance(ir[k], dict):
+                scan(ir[k], f, False)
+        for k in ('parts',):
+            for x in ir.get(k, []):
+                scan(x, f, False)
+    n = 0
+    for f in list(g.parsers()) + list(g.helpers()):
+        if f.kind == 'helper' or lexeme_fn(f):
+            n += 1
+            if f.ir:
+                scan(f.ir, f, False)
+    r.floor('token_level_functions', n, 30)
+    r.floor('boundary_lookaheads', r.instances, 2)
     return r
